@@ -3,6 +3,7 @@ import H2V.Lemmas.ConnCountsPIdle
 import H2V.Lemmas.ConnCountsPWitness
 import H2V.Lemmas.ConnCountsPFree
 import H2V.Lemmas.ConnCountsPQueueR
+import H2V.Lemmas.ConnCountsPConn
 /-
   C19 — finished streams are forgotten and an idle client connection closes itself.
   Property theorems only (lemmas: `H2V/Lemmas/ConnCountsP*.lean`, notes: `ConnCountsPNOTES.md`).
@@ -187,6 +188,25 @@ theorem stream_forgotten_too_early_counterexample :
   ⟨q1_reach, q1_counterexample.1, q1_counterexample.2.1, q1_counterexample.2.2.1, q1_counterexample.2.2.2.2.1,
    q1_counterexample.2.2.2.2.2.1, q1_counterexample.2.2.2.2.2.2⟩
 
+/-- **The store and its queues are consistent in every state of a running connection.**
+    (`ConnReach`: every connection state reachable from a fresh client or server connection by polls
+    of the connection future — whatever the peer sent —, user calls and transport events; see
+    `H2V.Props.C05.limits_hold_in_every_connection_state`.)  As long as no `assert!` has fired: no
+    two slab entries share a key and no key is reused; the counter of remembered reset streams is the
+    length of `pending_reset_expired`; and each of the five scheduling queues holds exactly the live
+    entries whose link flag is set, each once — no stale key anywhere. -/
+theorem store_is_consistent_in_every_connection_state {c : Conn} (h : ConnReach c) (hp : c.streams.panicked = none) :
+    (c.streams.store.slab.map (·.key)).Nodup ∧ (∀ x ∈ c.streams.store.slab, x.key < c.streams.store.nextKey) ∧
+    c.streams.counts.numLocalResetStreams = c.streams.recv.pendingResetExpired.length ∧
+    (∀ q, q ≠ QName.pendingAccept →
+      (∀ k, k ∈ c.streams.getQ q ↔ ∃ x, c.streams.store.get? k = some x ∧ x.isQueued q = true) ∧ (c.streams.getQ q).Nodup) := by
+  have hb := bookkeeping_returns_to_idle h.reach hp
+  exact ⟨hb.2.2.1, hb.2.2.2, hb.1, fun q hne => ⟨(h.reach.qok hp q hne).mem, (h.reach.qok hp q hne).nodup⟩⟩
+
+/-- non-vacuity: a fresh client after its first `poll` -/
+example : ConnReach ((Conn.init {}).clientPoll 50).1 ∧ ((Conn.init {}).clientPoll 50).1.streams.panicked = none :=
+  ⟨.step (.client {} rfl) (.clientPoll 50 _), by decide +kernel⟩
+
 #print axioms released_entry_is_removed
 #print axioms pending_reset_entry_kept
 #print axioms pending_reset_entry_kept_popFrame
@@ -199,5 +219,6 @@ theorem stream_forgotten_too_early_counterexample :
 #print axioms bookkeeping_returns_to_idle
 #print axioms finished_stream_retained_counterexample
 #print axioms stream_forgotten_too_early_counterexample
+#print axioms store_is_consistent_in_every_connection_state
 
 end H2V.Props.C19
